@@ -76,10 +76,23 @@ pub fn programs(tier: Tier) -> ProgramSet {
         s.variants[0].kind = Kind::Tuple(vec![FieldTy::T]);
         add(format!("N={} generic<T: Default>", n), s);
     }
+    // SCALE: larger enums (cursor pairs up to (N+1)(N+2)/2 states per live iterator)
+    let scale: &[usize] = if tier == Tier::Quick { &[9, 17] } else { &[9, 17, 33, 65] };
+    for &n in scale {
+        let mut spec = EnumSpec::base(0);
+        for i in 0..n {
+            spec.variants.push(VariantSpec::unit(&format!("V{}", i)));
+        }
+        let mut d = VariantSpec::unit("Zz");
+        d.disabled = true;
+        spec.variants.insert(n / 2, d);
+        let source = render(&spec);
+        out.push(Program { idx: 0, label: format!("SCALE N={} + disabled variant middle", n), k: 0, spec, aux: json!(null), source });
+    }
     ProgramSet {
         programs: finish(out),
         excluded: Default::default(),
-        bounds: json!({"N_max": nmax, "live_iterators_max": 2, "two_live_up_to_N": two_live_limit(tier),
+        bounds: json!({"N_max": nmax, "scale_N": if tier == Tier::Quick { json!([9, 17]) } else { json!([9, 17, 33, 65]) }, "live_iterators_max": 2, "two_live_up_to_N": two_live_limit(tier),
             "n_values": "0..N+2, 2^16, 2^32, 2^63-1, 2^63, usize::MAX-N-2..=usize::MAX",
             "adaptor_j": "1,2,N,N+1,usize::MAX", "search": "BFS to fixpoint (all reachable states)"}),
     }
@@ -594,9 +607,23 @@ pub fn explore(ctx: &mut Ctx, mk: fn() -> Box<dyn DynIter>) {
     let mut total_states = 0u64;
     let mut max_depth = 0usize;
     // pass 1: one live iterator, full n alphabet; pass 2: two live iterators (clone), for N up to the tier's limit
-    let mut passes = vec![(1usize, n_values(n))];
+    let full = if n > 12 {
+        // SCALE programs: boundary values only
+        let mut v: Vec<usize> = vec![0, 1, 2, 7, 8, 15, 16, 31, 32, n - 1, n, n + 1, 1 << 16, 1 << 32, usize::MAX - 1, usize::MAX];
+        v.sort();
+        v.dedup();
+        v
+    } else {
+        n_values(n)
+    };
+    let mut passes = vec![(1usize, full)];
     if n <= limit {
         passes.push((2usize, n_values(n)));
+    } else if n > 12 {
+        // SCALE programs: one live iterator in the quick tier; clone independence with a tiny alphabet in thorough
+        if ctx.thorough() {
+            passes.push((2usize, vec![0, n - 1, usize::MAX]));
+        }
     } else {
         // clone independence for larger N with a reduced n alphabet
         passes.push((2usize, vec![0, 1, n, usize::MAX]));
